@@ -243,7 +243,7 @@ Definition dom_C14 (allow : allowlist) : bool := allow_ok allow && no_rawtext al
 (* longest prefix whose characters satisfy p, and the rest *)
 Fixpoint span (p : ascii -> bool) (s : bytes) : bytes * bytes :=
   match s with
-  | c :: r => if p c then (c :: fst (span p r), snd (span p r)) else ([], s)
+  | c :: r => if p c then let sr := span p r in (c :: fst sr, snd sr) else ([], s)
   | [] => ([], [])
   end.
 
